@@ -306,9 +306,34 @@ def _mon_record(proj, tm, f):
     def is_mod(t):
         return isinstance(t, ast.BinOp) and isinstance(t.op, ast.Mod) and lin(t.left) == cumul and "frequency" in unparse(ctx.expand1(t.right))
 
+    def inline_helpers(t, depth=0):
+        """self.helper(args) whose body is a single `return E`  ->  E with the parameters replaced by the arguments"""
+        if depth > 3:
+            return t
+
+        class _Inl(ast.NodeTransformer):
+            def visit_Call(self, n):
+                self.generic_visit(n)
+                if isinstance(n.func, ast.Attribute) and isinstance(n.func.value, ast.Name) and n.func.value.id == sn and not n.keywords:
+                    m = proj.resolve(tm, n.func.attr)
+                    if m is not None and not m.is_static:
+                        body = [st for st in m.node.body if not (isinstance(st, ast.Expr) and isinstance(st.value, ast.Constant))]
+                        if len(body) == 1 and isinstance(body[0], ast.Return) and body[0].value is not None and len(n.args) == len(m.params) - 1:
+                            sub_ = dict(zip(m.params[1:], n.args))
+                            sub_[m.params[0]] = ast.Name(id=sn, ctx=ast.Load())
+
+                            class _Sub(ast.NodeTransformer):
+                                def visit_Name(self, x):
+                                    return sub_.get(x.id, x) if isinstance(x.ctx, ast.Load) else x
+                            import copy
+                            return inline_helpers(ast.fix_missing_locations(_Sub().visit(copy.deepcopy(body[0].value))), depth + 1)
+                return n
+        import copy
+        return _Inl().visit(copy.deepcopy(t))
+
     def implies_multiple(t, taken):
         """does (t is `taken`) imply  count % frequency == 0 ?"""
-        t = ctx.expand1(t)
+        t = inline_helpers(ctx.expand1(t))
         if isinstance(t, ast.UnaryOp) and isinstance(t.op, ast.Not):
             return implies_multiple(t.operand, not taken)
         if is_mod(t):
@@ -321,7 +346,7 @@ def _mon_record(proj, tm, f):
         return False
 
     def mentions_mod(t):
-        return any(is_mod(x) for x in ast.walk(ctx.expand1(t)))
+        return any(is_mod(x) for x in ast.walk(inline_helpers(ctx.expand1(t))))
     found = [False]
     wrong = [None]
 
